@@ -4,7 +4,8 @@ CONSTANTS
   MaxResends = 2
   MaxRefresh = 3
   HookBeforeQuitCheck = TRUE
-  Locals = TRUE
+  Locals = FALSE
   Triggers = FALSE
+  Decodes = TRUE
   QuitWhen = "dispatched"
 CHECK_DEADLOCK FALSE
